@@ -948,6 +948,79 @@ theorem namespace_not_renamable_partial (s : State) (hi : Inv s) (a : SaveReq) (
         · simp [hname] at hck
         · exact key x hx (by simpa using hname)
 
+/-- THE STRONGEST TRUE FORM of "namespaces cannot be renamed" for the code as it is: whatever one SaveEntity does (any request,
+    any outcome), every namespace row is still there with its id and type, and it has its old name UNLESS the request named its id
+    with a type other than namespace. So the only way to rename a namespace is a request of a foreign type aimed at the namespace's
+    id — which SaveEntity and RawEditEntity accept (see the witness below and corpus/C15/type-mismatch-namespace-rename.ops). -/
+theorem namespace_rename_only_by_foreign_type (s : State) (hi : Inv s) (a : SaveReq) :
+    ∀ n ∈ s.ents, n.typ = tNamespace →
+      ∃ n' ∈ (save s a).1.ents, n'.id = n.id ∧ n'.typ = tNamespace ∧ (n'.name = n.name ∨ (a.id = n.id ∧ a.typ ≠ tNamespace)) := by
+  intro n hn hnt
+  have hs := save_shape .fixed s a
+  have hpart : ∀ s' ev, save s a = (s', .ok ev false) → a.typ = tNamespace → ∀ r ∈ s.ents, r.id = a.id → r.name = a.name ∧ r.typ = tNamespace :=
+    fun s' ev h => namespace_not_renamable_partial s hi a s' ev h
+  unfold save at hpart ⊢
+  generalize saveV .fixed s a = p at hs hpart
+  cases hs with
+  | err e => exact ⟨n, hn, rfl, hnt, Or.inl rfl⟩
+  | created nsId hns hc hb he =>
+    exact ⟨n, (mem_insertById _ _ _).mpr (Or.inr hn), rfl, hnt, Or.inl rfl⟩
+  | edited nsId r hns hr hv hc hck hlate hb he =>
+    obtain ⟨hrm, hrid⟩ := rowOf_some hr
+    by_cases hid : n.id = r.id
+    · have hnr : n = r := hi.idUniq n hn r hrm hid
+      subst hnr
+      refine ⟨editedRow n a (maxVer s.ents + 1) nsId, (mem_replaceRow _ _ _).mpr (Or.inl ⟨rfl, n, hrm, rfl⟩), rfl, hnt, ?_⟩
+      by_cases hat : a.typ = tNamespace
+      · left
+        have := (hpart _ _ rfl hat n hrm hrid).1
+        simp [editedRow, this]
+      · right; exact ⟨hrid.symm, hat⟩
+    · exact ⟨n, (mem_replaceRow _ _ _).mpr (Or.inr ⟨hn, hid⟩), rfl, hnt, Or.inl rfl⟩
+
+/-- a request is well-typed for the state it runs in when it does not aim a foreign type at a namespace's id -/
+def WellTyped (s : State) (a : SaveReq) : Prop := ∀ r ∈ s.ents, r.id = a.id → r.typ = tNamespace → a.typ = tNamespace
+
+/-- every entity request of the history is well-typed in the state it runs in -/
+def WellTypedHistory (c : Cfg) : State → List Op → Prop
+  | _, [] => True
+  | s, .save a :: ops => WellTyped s a ∧ WellTypedHistory c (save s a).1 ops
+  | s, op :: ops => WellTypedHistory c (step c s op) ops
+
+/-- "namespaces cannot be renamed", end to end over histories: along ANY history whose entity requests are well-typed (creates,
+    edits, renames, deletes of anything, builtin ids and create flags included, interleaved with mapping operations) every
+    namespace keeps its id, its type and its name forever. -/
+theorem namespace_not_renamable (c : Cfg) : ∀ (ops : List Op) (s : State), Inv s → WellTypedHistory c s ops →
+    ∀ n ∈ s.ents, n.typ = tNamespace → ∃ n' ∈ (run c s ops).ents, n'.id = n.id ∧ n'.typ = tNamespace ∧ n'.name = n.name := by
+  intro ops
+  induction ops with
+  | nil => intro s _ _ n hn hnt; exact ⟨n, hn, rfl, hnt, rfl⟩
+  | cons op ops ih =>
+    intro s hi hw n hn hnt
+    have hi' := step_inv c s op hi
+    cases op with
+    | save a =>
+      obtain ⟨hwa, hw'⟩ := hw
+      obtain ⟨n1, hn1, hid1, ht1, hname1⟩ := namespace_rename_only_by_foreign_type s hi a n hn hnt
+      have hname : n1.name = n.name := by
+        rcases hname1 with h | ⟨hid, hne⟩
+        · exact h
+        · exact absurd (hwa n hn hid.symm hnt) hne
+      obtain ⟨n2, hn2, hid2, ht2, hname2⟩ := ih _ hi' hw' n1 hn1 ht1
+      exact ⟨n2, hn2, by rw [hid2, hid1], ht2, by rw [hname2, hname]⟩
+    | getOrCreate m k now =>
+      have h := step_other c s (.getOrCreate m k now) (by intro a h; cases h)
+      exact ih _ hi' hw n (by rw [h.1]; exact hn) hnt
+    | put kvs =>
+      have h := step_other c s (.put kvs) (by intro a h; cases h)
+      exact ih _ hi' hw n (by rw [h.1]; exact hn) hnt
+    | delete ids =>
+      have h := step_other c s (.delete ids) (by intro a h; cases h)
+      exact ih _ hi' hw n (by rw [h.1]; exact hn) hnt
+    | reset m l now =>
+      have h := step_other c s (.reset m l now) (by intro a h; cases h)
+      exact ih _ hi' hw n (by rw [h.1]; exact hn) hnt
+
 /-- the pinned tree: a namespace "create" for an existing builtin id renames the row (replayed on the real code by the
     harness: oracle signature `namespace-renamed`) -/
 def nsReq (loc : Nat) (oldVersion : Nat) (create : Bool) : SaveReq :=
@@ -1377,12 +1450,29 @@ example : okCount s3 [mk 9 3 3 false tMetric, mk 6 3 3 false tMetric] = 1 := by 
 example : (save (save s3 (mk 9 3 3 false tMetric)).1 (mk 6 3 3 false tMetric)).2 = .err .invalidVersion := by decide
 example : winners cfg0 s3 [.save (mk 9 3 3 false tMetric), .getOrCreate 1 1 5, .save (mk 6 3 3 false tMetric)] 3 = 1 := by decide
 example : okVersions cfg0 State.empty [.save (mk 1 0 0 true tNamespace), .save (mk 1 0 0 true tNamespace), .save (mk 1 1 1 false tNamespace)] = [1, 2] := by decide
+-- three racers with DIFFERENT new names, data and metadata from version 3 of entity 3, all six orders: exactly one winner each time
+def racer (loc data mdata : Nat) : SaveReq := { mk loc 3 3 false tMetric with data := data, mdata := mdata }
+example : ∀ rs ∈ [[racer 7 1 0, racer 8 2 1, racer 9 3 2], [racer 7 1 0, racer 9 3 2, racer 8 2 1], [racer 8 2 1, racer 7 1 0, racer 9 3 2],
+    [racer 8 2 1, racer 9 3 2, racer 7 1 0], [racer 9 3 2, racer 7 1 0, racer 8 2 1], [racer 9 3 2, racer 8 2 1, racer 7 1 0]],
+    okCount s3 rs = 1 := by decide
 -- rename onto a used name of the same type and namespace: UNIQUE constraint; into a missing namespace: rejected
 example : (save s3 (mk 6 2 2 false tMetric)).2 = .err .constraint := by decide
 example : (save s3 (mk 6 3 3 false tMetric 4)).2 = .err .nsMissing := by decide
 example : (save s3 (mk 2 1 1 false tNamespace)).2 = .err .renameNs := by decide
 example : (journal s3 1 1000).map (·.id) = [2, 3] ∧ (journal s3 0 2).map (·.id) = [1, 2] ∧ (journal s3 2 (-1)).map (·.id) = [3] := by decide
 
+
+-- `namespace_not_renamable`: a well-typed history that tries everything on namespace w1 (edit, rename attempt, delete, builtin-style
+-- create flag) and renames/moves other entities around it; the namespace keeps its name
+example : WellTypedHistory cfg0 s3 [.save (mk 2 1 1 false tNamespace), .save (mk 1 1 1 false tNamespace), .save (mk 9 3 3 false tMetric),
+    .save (mk 1 1 4 true tNamespace), .save (mk 5 2 2 false tMetric)] := by
+  simp only [WellTypedHistory, WellTyped]; decide
+example : ((run cfg0 s3 [.save (mk 2 1 1 false tNamespace), .save (mk 1 1 1 false tNamespace), .save (mk 9 3 3 false tMetric)]).ents.map
+    (fun e => (e.id, e.typ, e.name.loc, e.version))) = [(1, 4, 1, 4), (2, 0, 5, 2), (3, 0, 9, 5)] := by decide
+-- the ill-typed request the hypothesis excludes (a finding, reachable through RawEditEntity): type metric aimed at namespace id 1
+example : ¬ WellTyped s3 (mk 7 1 1 false tMetric) := by
+  intro h; exact absurd (h _ (by decide : (⟨1, ⟨0, 1⟩, 0, 1, 1700000000, 0, 7, 2, 4⟩ : Entity) ∈ s3.ents) rfl rfl) (by decide)
+example : (save s3 (mk 7 1 1 false tMetric)).1.ents.map (fun e => (e.id, e.typ, e.name.loc)) = [(1, 4, 7), (2, 0, 5), (3, 0, 6)] := by decide
 
 -- long-poll: client 1 parked at From 2 (it holds everything up to 2), client 2 parked at From 3 = the version of the pending event
 -- of entity 3; the broadcast reads from the smaller From: client 1 gets version 3, client 2 gets nothing and stays parked
